@@ -70,7 +70,7 @@ var props = map[string]*PropCfg{
 		QuickRuns: 14000, ThoroughRuns: 1500000, QuickSecs: 60, ThoroughSecs: 1200,
 		Rule:        "one run = one seeded build or merge scenario with vector fields; a dry run records the engine call sequence; then every (operation, n) of it (quick: a sample) is failed once; non-trivial = the injected failure fired; distinct = distinct digests of the run's event log",
 		Assumptions: []string{sampAssume, "stub vector engine with a fault plan; FAISS itself is not exercised"}},
-	"C20": {ID: "C20", Level: "exploration", Variants: []Variant{share(vDef, 3), share(vRace, 1)},
+	"C20": {ID: "C20", Level: "exploration", Variants: []Variant{share(vDef, 3), share(vRace, 1), share(vVec, 1)},
 		QuickRuns: 12000, ThoroughRuns: 1200000, QuickSecs: 45, ThoroughSecs: 900,
 		Rule:        "one run = one mmap-opened (or in-memory) segment and a balanced seeded history of AddRef / DecRef / Close, sequential with a read sweep between any two operations, or 2-5 holder tasks interleaved with the owner's Close and with readers; reference counter model, /proc/self/maps and /proc/self/fd inspected after the last release; non-trivial = at least 3 reference operations with reads in between; distinct = distinct digests of the run's event log",
 		Assumptions: []string{sampAssume, "race variant: Go race detector under an invisible (raw-syscall) baton"}},
@@ -83,8 +83,8 @@ var expectedProbes = map[string][]string{
 	"C05": {"probe.stored.bytecopy", "probe.stored.reencode", "probe.merge.nosurvivors", "probe.merge.chain>=2", "probe.merge.emptyinput", "fault.merge.cancelled"},
 	"C06": {"probe.dense.batch>=1024", "probe.postings.bytecopy", "probe.postings.reencode", "probe.1hit.remerged", "probe.merge.chain>=2"},
 	"C07": {"probe.dense.batch>=1024", "probe.post.target-beyond-32-bits", "probe.post.1hit-list", "probe.post.replaceactual", "probe.post.list>=3hits", "probe.post.list>=3chunks", "probe.prealloc.from-closed-segment"},
-	"C08": {"probe.dict.exhausted-iterator-asked-again", "probe.dict.merged>=2terms", "probe.dict.multi-after-single", "probe.dict.two-iterators-of-one-dictionary"},
-	"C10": {"probe.pool.builder-reused", "probe.pool.object-reused-across-tasks", "fault.build.rejected", "probe.build.size-compared", "probe.yield.zapx:new.afterGet", "probe.yield.zapx:new.beforePut"},
+	"C08": {"probe.dict.checked-against-batch", "probe.dict.exhausted-iterator-asked-again", "probe.dict.merged>=2terms", "probe.dict.multi-after-single", "probe.dict.two-iterators-of-one-dictionary"},
+	"C10": {"probe.build.size-compared-with-slack", "probe.pool.builder-reused", "probe.pool.object-reused-across-tasks", "fault.build.rejected", "probe.build.size-compared", "probe.yield.zapx:new.afterGet", "probe.yield.zapx:new.beforePut"},
 	"C11": {"probe.pool.object-reused-across-tasks", "probe.yield.zapx:dict.beforeLock", "probe.yield.zapx:syncache.window", "probe.yield.visit.insideCallback", "probe.yield.merge.reportBytesWritten", "fault.poolflush"},
 	"C13": {"probe.merge.chain>=2", "probe.syn.empty-term", "probe.syn.empty-thesaurus"},
 	"C15": {"probe.merge.chain>=2", "probe.vec.boundary-batch"},
@@ -92,7 +92,7 @@ var expectedProbes = map[string][]string{
 	"C17": {"fault.rlimit", "fault.rlimit-transient", "fault.devfull", "fault.devnull", "fault.dir", "fault.noparent", "fault.writer.mode0", "fault.writer.mode1", "fault.strace.fsync", "fault.strace.close", "fault.strace.write", "probe.io.over-longer-file", "probe.io.over-shorter-file"},
 	"C18": {"probe.io.over-longer-file", "probe.cancel.midway-aborted", "fault.cancel.aborted", "fault.cancel.finished-normally", "fault.cancel.concurrent-aborted", "fault.cancel.concurrent-finished"},
 	"C19": {"probe.vec.field>4096vectors", "probe.io.over-longer-file", "fault.engine.IndexFactory", "fault.engine.AddWithIDs", "fault.engine.WriteIndexIntoBuffer", "fault.engine.ReadIndexFromBuffer", "fault.engine.ReconstructBatch", "fault.engine.Train", "fault.engine.SetDirectMap"},
-	"C20": {"probe.ref.parallel-release-rounds", "probe.ref.merge-of-held-segment", "probe.syn.unloadable-thesaurus-world", "probe.ref.failed-merge-of-held-segment", "probe.open.damaged-rejected", "probe.yield.zapx:seg.addRef", "probe.yield.zapx:seg.decRef"},
+	"C20": {"probe.ref.engine-indexes-checked-after-release", "probe.ref.parallel-release-rounds", "probe.ref.merge-of-held-segment", "probe.syn.unloadable-thesaurus-world", "probe.ref.failed-merge-of-held-segment", "probe.open.damaged-rejected", "probe.yield.zapx:seg.addRef", "probe.yield.zapx:seg.decRef"},
 }
 
 // ---------------------------------------------------------------------------
